@@ -468,5 +468,76 @@ func genC01(env *core.Env, emit func(core.Case)) {
 			}
 		}
 	}
+	// first flights as clients other than crypto/tls write them (GREASE versions and extensions, shuffled
+	// order, ech_outer_extensions compression, outer ALPN): routed on the inner hello, which is what an
+	// independent TLS server then reads from the forwarded bytes
+	for i := 0; i < env.Pick(60, 1500); i++ {
+		key := gen.NewKey(r, uint8(r.IntN(256)), "public.example", gen.AllSuites)
+		o := gen.PlanOpts{NOuterOpaque: 2 + r.IntN(4), NInnerOpaque: r.IntN(4), MaxExtLen: 40, Padding: r.IntN(32), SIDLen: 32, RefMask: r.Uint64(), MarkerPos: r.IntN(6),
+			InnerName: hostName(r), ALPN: alpnList(r), PublicName: "public.example", RefOuterVersions: r.IntN(6) == 0}
+		plan := gen.Plan(r, o)
+		sealed := gen.Seal(plan.OuterBase, r.IntN(len(plan.OuterBase.Exts)+1), key, gen.AllSuites[r.IntN(3)], plan.Enc.Body(), nil, 0x0301)
+		s := connh.NewSess(echKeys(key))
+		s.Register(sealed.Rec)
+		res := s.New(oneChunk(sealed.Rec), "eof")
+		w := ""
+		if res.Err != "-" || !res.Accepted {
+			w = fmt.Sprintf("an authentic ECH hello of a non-Go client was not accepted (err=%s accepted=%v)", res.Err, res.Accepted)
+		} else {
+			d := s.Read(70000)
+			sni, alpn, ok := tlsView(d.Data)
+			if !ok {
+				// crypto/tls refuses hellos whose (randomly filled) well-known extensions do not parse; read
+				// the two extensions with the harness's own reader instead
+				sni, alpn, ok = ownView(d.Data)
+				env.Count("foreign-client/read-by-own-parser")
+			} else {
+				env.Count("foreign-client/read-by-crypto-tls")
+			}
+			switch {
+			case !ok:
+				w = "the forwarded hello cannot be read"
+			case sni != o.InnerName || res.SNI != o.InnerName:
+				w = fmt.Sprintf("inner server name %q: backend sees %q, Conn reports %q", o.InnerName, sni, res.SNI)
+			case !slices.Equal(alpn, o.ALPN) && !(len(alpn) == 0 && len(o.ALPN) == 0):
+				w = fmt.Sprintf("inner ALPN %q: backend sees %q", o.ALPN, alpn)
+			case !slices.Equal(res.ALPN, o.ALPN) && !(len(res.ALPN) == 0 && len(o.ALPN) == 0):
+				w = fmt.Sprintf("inner ALPN %q: Conn reports %q", o.ALPN, res.ALPN)
+			}
+		}
+		s.X("a non-Go client's ECH hello is accepted and routed on its inner hello (names as the backend's TLS stack reads them)", w)
+		emit(core.Case{Name: fmt.Sprintf("foreign/%d", i), Stream: "foreign-client", Ops: s.Ops, Key: "foreign-client",
+			Sig: fmt.Sprintf("foreign/%v/alpn%d", res.Accepted, len(o.ALPN)), Sample: map[string]any{"stream": "foreign-client", "inner_name_len": len(o.InnerName), "alpn": o.ALPN, "accepted": res.Accepted}})
+		env.Count(fmt.Sprintf("foreign-client/accepted-%v", res.Accepted))
+	}
 	_ = rand.Int
+}
+
+// ownView extracts server_name and ALPN from a ClientHello record with the harness's own parser.
+func ownView(rec []byte) (sni string, alpn []string, ok bool) {
+	h, _, err := gen.ParseRecord(rec)
+	if err != nil {
+		return "", nil, false
+	}
+	for _, e := range h.Exts {
+		switch e.Type {
+		case 0:
+			if len(e.Data) >= 5 {
+				n := int(e.Data[3])<<8 | int(e.Data[4])
+				if 5+n <= len(e.Data) {
+					sni = string(e.Data[5 : 5+n])
+				}
+			}
+		case 16:
+			b := e.Data
+			if len(b) >= 2 {
+				b = b[2:]
+				for len(b) > 0 && 1+int(b[0]) <= len(b) {
+					alpn = append(alpn, string(b[1:1+int(b[0])]))
+					b = b[1+int(b[0]):]
+				}
+			}
+		}
+	}
+	return sni, alpn, true
 }
